@@ -1,2 +1,218 @@
-(* Properties/C17.v — property theorems only. (stub) *)
+(* Properties/C17.v — MinHash sketches depend only on the k-mer content; the
+   Mash distance obeys its laws.  Theorems only; proofs are in
+   Proofs/MashProofs{,B,C}.v.
+
+   The hash function is an arbitrary total [h : bytes -> N] (murmur3 with
+   mash.Seed in the implementation); the model receives it as
+   [fun b => Some (h b)].  [kmers k seqs] are the canonical upper-cased k-mers
+   of all sequences (Panic: some sequence has a byte outside aAcCgGtTnN, or
+   k < 0).  The distance laws are over Coq's real numbers: float64 rounding of
+   the division and of math.Log is not modelled (the harness compares the
+   implementation with the closed form within 4 ulp). *)
+From Coq Require Import String Reals Sorted Permutation.
 From Bio Require Import Base.
+From Bio.Model Require Import Seq Mash.
+From Bio.Spec Require Import MashSpec.
+From Bio.Proofs Require Import MashProofs MashProofsB MashProofsC.
+
+Notation total h := (fun b : bytes => Some (h b)).
+
+(* ---- the sketch ---------------------------------------------------------------- *)
+
+(* Sequences(n,k,seqs).View() is exactly the n smallest distinct hash values of
+   the canonical upper-cased k-mers, in descending order. *)
+Theorem C17_sketch_exact : forall (h : bytes -> N) n k seqs ks,
+  (1 <= n)%Z -> kmers k seqs = Ok ks ->
+  sequences (total h) n k seqs = Ok (rev (firstn (Z.to_nat n) (sort_dedup (map h ks)))).
+Proof. exact sketch_exact. Qed.
+Print Assumptions C17_sketch_exact.
+
+(* complete description, panics included *)
+Theorem C17_sketch_total : forall (h : bytes -> N) n k seqs,
+  sequences (total h) n k seqs =
+  if (n <? 1)%Z then Panic
+  else match kmers k seqs with
+       | Ok ks => Ok (sketch_of n (map h ks))
+       | _ => Panic
+       end.
+Proof. exact sequences_spec. Qed.
+Print Assumptions C17_sketch_total.
+
+(* what [sort_dedup] is: strictly ascending, same elements *)
+Theorem C17_sort_dedup_spec : forall l,
+  StronglySorted N.lt (sort_dedup l) /\ forall x, In x (sort_dedup l) <-> In x l.
+Proof. exact (fun l => conj (sort_dedup_asc l) (fun x => sort_dedup_in l x)). Qed.
+Print Assumptions C17_sort_dedup_spec.
+
+(* the sketch depends on the SET of k-mers only *)
+Theorem C17_sketch_content : forall (h : bytes -> N) n k seqs seqs' ks ks',
+  kmers k seqs = Ok ks -> kmers k seqs' = Ok ks' -> (forall b, In b ks <-> In b ks') ->
+  sequences (total h) n k seqs = sequences (total h) n k seqs'.
+Proof. exact sketch_content. Qed.
+Print Assumptions C17_sketch_content.
+
+Theorem C17_sketch_perm : forall (h : bytes -> N) n k seqs seqs' ks ks',
+  kmers k seqs = Ok ks -> kmers k seqs' = Ok ks' -> Permutation ks ks' ->
+  sequences (total h) n k seqs = sequences (total h) n k seqs'.
+Proof. exact sketch_perm. Qed.
+Print Assumptions C17_sketch_perm.
+
+(* reordering the sequences (any outcome, panics included) *)
+Theorem C17_sketch_reorder : forall (h : bytes -> N) n k seqs seqs',
+  Permutation seqs seqs' -> sequences (total h) n k seqs = sequences (total h) n k seqs'.
+Proof. exact sketch_reorder. Qed.
+Print Assumptions C17_sketch_reorder.
+
+(* reverse-complementing any of the sequences ([rc] is ReverseComplement) *)
+Theorem C17_sketch_rc : forall (h : bytes -> N) n k seqs seqs',
+  Forall2 (fun s r => r = s \/ rc [] s = Ok r) seqs seqs' ->
+  sequences (total h) n k seqs = sequences (total h) n k seqs'.
+Proof. exact sketch_rc. Qed.
+Print Assumptions C17_sketch_rc.
+
+(* changing letter case *)
+Theorem C17_sketch_case : forall (h : bytes -> N) n k seqs seqs',
+  Forall2 (fun s s' => map upper_byte s = map upper_byte s') seqs seqs' ->
+  sequences (total h) n k seqs = sequences (total h) n k seqs'.
+Proof. exact sketch_case. Qed.
+Print Assumptions C17_sketch_case.
+
+(* building incrementally: Sequences on the first batch, Add for each further one *)
+Theorem C17_sketch_incremental : forall (h : bytes -> N) n k batches ks,
+  batches <> [] -> (1 <= n)%Z -> kmers k (concat batches) = Ok ks ->
+  incremental (total h) n k batches = sequences (total h) n k (concat batches).
+Proof. exact sketch_incremental. Qed.
+Print Assumptions C17_sketch_incremental.
+
+(* re-partitioning: the same sequences distributed differently over the calls *)
+Theorem C17_sketch_repartition : forall (h : bytes -> N) n k b1 b2 ks,
+  b1 <> [] -> b2 <> [] -> (1 <= n)%Z ->
+  Permutation (concat b1) (concat b2) -> kmers k (concat b1) = Ok ks ->
+  incremental (total h) n k b1 = incremental (total h) n k b2.
+Proof. exact sketch_repartition. Qed.
+Print Assumptions C17_sketch_repartition.
+
+(* a smaller sketch is the tail of a larger one *)
+Theorem C17_sketch_tail : forall (h : bytes -> N) n n' k seqs v,
+  (1 <= n' <= n)%Z -> sequences (total h) n k seqs = Ok v ->
+  sequences (total h) n' k seqs = Ok (skipn (length v - Z.to_nat n') v).
+Proof. exact sketch_tail. Qed.
+Print Assumptions C17_sketch_tail.
+
+(* ---- Jaccard --------------------------------------------------------------------- *)
+
+(* minhash.intersect returns the same pair for both orders of two collections
+   of the same capacity *)
+Theorem C17_intersect_symmetric : forall a b n, intersect a b n = intersect b a n.
+Proof. exact intersect_sym. Qed.
+Print Assumptions C17_intersect_symmetric.
+
+Theorem C17_jaccard_symmetric : forall (h : bytes -> N) n k sa sb,
+  sketch_jaccard_pair (total h) n n k sa sb = sketch_jaccard_pair (total h) n n k sb sa.
+Proof. exact sketch_jaccard_sym. Qed.
+Print Assumptions C17_jaccard_symmetric.
+
+(* two full collections of equal size n (strictly descending value lists): the
+   pair is (number of values among the n smallest of the union that both have, n) *)
+Theorem C17_jaccard_full : forall n a b,
+  StronglySorted (fun x y => y < x) a -> StronglySorted (fun x y => y < x) b ->
+  length a = n -> length b = n -> (1 <= n)%nat ->
+  intersect a b (Z.of_nat n) =
+  Ok (Z.of_nat (length (filter (fun x => memb x a && memb x b) (firstn n (sort_dedup (a ++ b))))),
+      Z.of_nat n).
+Proof. exact jaccard_full. Qed.
+Print Assumptions C17_jaccard_full.
+
+(* the same, on two sketches *)
+Theorem C17_jaccard_full_sketches : forall (h : bytes -> N) n k sa sb ka kb,
+  (1 <= n)%Z -> kmers k sa = Ok ka -> kmers k sb = Ok kb ->
+  length (sketch_of n (map h ka)) = Z.to_nat n ->
+  length (sketch_of n (map h kb)) = Z.to_nat n ->
+  sketch_jaccard_pair (total h) n n k sa sb
+  = Ok (Z.of_nat (shared_bottom (Z.to_nat n) (sketch_of n (map h ka)) (sketch_of n (map h kb))), n).
+Proof. exact sketch_jaccard_full. Qed.
+Print Assumptions C17_jaccard_full_sketches.
+
+(* identical k-mer content: everything is shared *)
+Theorem C17_jaccard_identical : forall (h : bytes -> N) n k sa sb ka kb,
+  (1 <= n)%Z -> kmers k sa = Ok ka -> kmers k sb = Ok kb -> (forall x, In x ka <-> In x kb) ->
+  length (sketch_of n (map h ka)) = Z.to_nat n ->
+  sketch_jaccard_pair (total h) n n k sa sb = Ok (n, n).
+Proof. exact sketch_jaccard_same. Qed.
+Print Assumptions C17_jaccard_identical.
+
+(* ---- Distance, over the reals -------------------------------------------------------- *)
+Local Open Scope R_scope.
+
+Theorem C17_dist_formula : forall j k, 0 < j ->
+  mash_dist j k = Rmin 1 (- ln (2 * j / (1 + j)) / INR k).
+Proof. exact dist_formula. Qed.
+Print Assumptions C17_dist_formula.
+
+Theorem C17_dist_zero : forall k, mash_dist 0 k = 1.
+Proof. exact dist_zero. Qed.
+Print Assumptions C17_dist_zero.
+
+Theorem C17_dist_range : forall j k, 0 <= j <= 1 -> (0 < k)%nat -> 0 <= mash_dist j k <= 1.
+Proof. exact dist_range. Qed.
+Print Assumptions C17_dist_range.
+
+Theorem C17_dist_identical : forall k, mash_dist 1 k = 0.
+Proof. exact dist_identical. Qed.
+Print Assumptions C17_dist_identical.
+
+(* FromJaccard is non-increasing on [0,1] *)
+Theorem C17_dist_antitone : forall j1 j2 k, 0 <= j1 -> j1 <= j2 -> j2 <= 1 -> (0 < k)%nat ->
+  mash_dist j2 k <= mash_dist j1 k.
+Proof. exact dist_antitone. Qed.
+Print Assumptions C17_dist_antitone.
+
+Theorem C17_dist_symmetric : forall a b n k p q,
+  intersect a b n = Ok p -> intersect b a n = Ok q -> mash_dist_pair p k = mash_dist_pair q k.
+Proof. exact dist_symmetric. Qed.
+Print Assumptions C17_dist_symmetric.
+
+(* two full sketches of equal size: Distance is the formula at the shared
+   fraction of the n smallest values of the union, and lies in [0,1] *)
+Theorem C17_dist_full : forall a b n k,
+  StronglySorted (fun x y => (y < x)%N) a -> StronglySorted (fun x y => (y < x)%N) b ->
+  length a = n -> length b = n -> (1 <= n)%nat ->
+  exists p, intersect a b (Z.of_nat n) = Ok p /\
+    mash_dist_pair p k = mash_dist (INR (shared_bottom n a b) / INR n) k /\
+    ((0 < k)%nat -> 0 <= mash_dist_pair p k <= 1).
+Proof. exact dist_full. Qed.
+Print Assumptions C17_dist_full.
+
+(* identical content: the pair is (n, n) (C17_jaccard_identical) and the distance 0 *)
+Theorem C17_dist_same_content : forall n k, (0 < n)%Z -> mash_dist_pair (n, n) k = 0.
+Proof. exact dist_pair_identical. Qed.
+Print Assumptions C17_dist_same_content.
+
+Local Close Scope R_scope.
+
+(* ---- the hypotheses are satisfiable ------------------------------------------------------ *)
+Definition ex_hash (b : bytes) : N := fold_left (fun acc x => (acc * 31 + x) mod 1009) b 7.
+Definition ex_seqs : list bytes := [bs "ACGTTGCAAT"; bs "ggnAcT"].
+Definition ex_seqs_rc : list bytes := [bs "ATTGCAACGT"; bs "ggnAcT"].
+Definition ex_seqs_b : list bytes := [bs "ACGTTGCTAT"; bs "CCCAG"].
+
+(* 12 k-mers, a sketch of 4 distinct values *)
+Example C17_ex_sketch :
+  (exists ks, kmers 3 ex_seqs = Ok ks /\ length ks = 12%nat) /\
+  sequences (total ex_hash) 4 3 ex_seqs = Ok [654; 563; 556; 426].
+Proof. split; [eexists; split|]; vm_compute; reflexivity. Qed.
+
+(* the reverse complement of the first sequence, lower-cased, given last: same sketch *)
+Example C17_ex_variants :
+  rc [] (bs "ACGTTGCAAT") = Ok (bs "ATTGCAACGT") /\
+  sequences (total ex_hash) 4 3 [bs "GGNACT"; bs "attgcaacgt"] = sequences (total ex_hash) 4 3 ex_seqs /\
+  incremental (total ex_hash) 4 3 [[bs "ggnAcT"]; []; [bs "ACGTTGCAAT"]] = sequences (total ex_hash) 4 3 ex_seqs /\
+  sequences (total ex_hash) 2 3 ex_seqs = Ok [556; 426].
+Proof. repeat split; vm_compute; reflexivity. Qed.
+
+(* two full sketches of size 4 sharing 2 of the 4 smallest values of the union *)
+Example C17_ex_jaccard :
+  sketch_jaccard_pair (total ex_hash) 4 4 3 ex_seqs ex_seqs_b = Ok (2, 4)%Z /\
+  (exists a b, sequences (total ex_hash) 4 3 ex_seqs = Ok a /\ sequences (total ex_hash) 4 3 ex_seqs_b = Ok b /\
+     length a = 4%nat /\ length b = 4%nat /\ shared_bottom 4 a b = 2%nat).
+Proof. split; [|eexists; eexists; repeat split]; vm_compute; reflexivity. Qed.
